@@ -156,11 +156,6 @@ func (con *Connection) encryptedWrite(encrypter crypto.Encrypter, b []byte) (int
 // DecryptedRead reads and decrypts bytes from the connection.
 // The method returns the number of read bytes and an error when reading failed.
 func (con *Connection) DecryptedRead(b []byte) (int, error) {
-	decrypter := con.getDecrypter()
-	if decrypter == nil {
-		return 0, errors.New("no decrypter")
-	}
-
 	// Decrypt the next packet when all decrypted bytes are consumed; packets without data are skipped
 	for con.readBuffer == nil || con.readBuffer.Len() == 0 {
 		if con.buffered == nil {
@@ -182,6 +177,13 @@ func (con *Connection) DecryptedRead(b []byte) (int, error) {
 				con.connection.Close()
 			}
 			return 0, err
+		}
+
+		// The decrypter is looked up when the packet is complete: a new cryptographer may
+		// have been negotiated while this read was waiting for data.
+		decrypter := con.getDecrypter()
+		if decrypter == nil {
+			return 0, errors.New("no decrypter")
 		}
 
 		decrypted, err := decrypter.Decrypt(io.LimitReader(con.buffered, int64(size)))
